@@ -120,6 +120,11 @@ func (c *client) PushBlob(ctx context.Context, repo string, desc ociregistry.Des
 	if err != nil {
 		return ociregistry.Descriptor{}, err
 	}
+	if req.Body == http.NoBody && desc.Size != 0 {
+		// net/http knows the content is empty and would send a zero Content-Length
+		// regardless of what we set below.
+		return ociregistry.Descriptor{}, fmt.Errorf("empty content does not match descriptor size %d: %w", desc.Size, ociregistry.ErrSizeInvalid)
+	}
 	req.URL = urlWithDigest(location, string(desc.Digest))
 	req.ContentLength = desc.Size
 	req.Header.Set("Content-Type", "application/octet-stream")
